@@ -59,13 +59,20 @@ def run_trace(scn):
     from eudoxia.workload.csv_io import CSVWorkloadReader
     tps = scn["tps"]
     nticks = scn["nticks"]
-    arrivals = scn["arrivals"]            # decimal strings, non-decreasing
+    arrivals = scn.get("arrivals")        # decimal strings, non-decreasing
+    if scn.get("big"):
+        # size reach: a trace of many MiB, described compactly (per_tick pipelines in every tick, exact dyadic arrivals)
+        b = scn["big"]
+        arrivals = [fstr(F(k // b["per_tick"], tps)) for k in range(b["n"])]
+        scn = dict(scn, nops=[b["nops"]] * b["n"])
     nops = scn.get("nops") or [1] * len(arrivals)
     out = {"violation": None, "discard": None, "faults": {}, "probes": {}, "ticks": 0, "nontrivial": False}
     rows = []
     for j, a in enumerate(arrivals):
         rows += simple_rows("p%d" % (j + 1), a, nops[j], PRIOS[j % 3])
     text = "" if scn.get("empty_file") else rows_to_text(rows)
+    if scn.get("big"):
+        out["probes_big"] = len(text)
     exp = [expected_tick(a, tps) for a in arrivals]
     delivered = {}
     order = []
@@ -142,8 +149,11 @@ def run_trace(scn):
         out["violation"] = Violation("C13.raises", {"exc": repr(e)[:200], "tps": tps, "pipelines": len(arrivals)}).to_json()
     if not arrivals:
         probes["empty_trace"] = 1
+    if scn.get("big"):
+        probes["trace_mib"] = out.pop("probes_big") // 2 ** 20
+        probes["big_trace"] = 1
     out["probes"] = probes
-    out["faults"] = {k: v for k, v in probes.items() if k in ("on_grid", "in_band", "beyond_end", "equal_arrivals", "empty_trace") and v}
+    out["faults"] = {k: v for k, v in probes.items() if k in ("on_grid", "in_band", "beyond_end", "equal_arrivals", "empty_trace", "big_trace") and v}
     out["nontrivial"] = bool(out["faults"])
     out["sim_s"] = nticks / tps
     out["sig"] = digest([tps, nticks, arrivals[:50]])
@@ -208,6 +218,15 @@ def gen_trace(r, avoid_known=True):
     nticks = max(1, nticks)
     return {"kind": "trace", "tps": tps, "nticks": nticks, "arrivals": arrivals,
             "nops": [r.choice([1, 1, 2, 3]) for _ in arrivals], "jump": jump}
+
+
+def gen_bigtrace(r, tier):
+    tps = r.choice([1, 2, 4, 8, 16])
+    per_tick = r.choice([5, 20, 100, 400])
+    n = r.choice([15000, 40000, 70000, 120000] if tier == "quick" else [15000, 40000, 70000, 120000, 250000])
+    n += r.randint(0, 5000)
+    return {"kind": "trace", "tps": tps, "nticks": n // per_tick + r.randint(1, 4), "jump": False,
+            "big": {"n": n, "per_tick": per_tick, "nops": r.choice([1, 3, 3])}}
 
 
 def _finite(a):
@@ -455,7 +474,8 @@ def run_r2w(scn):
 
 
 CORRUPTIONS = ("blank_priority_first", "blank_arrival_first", "priority_on_later", "arrival_on_later",
-               "unknown_priority", "unknown_scaling", "undefined_parent", "parent_defined_later")
+               "unknown_priority", "unknown_scaling", "undefined_parent", "parent_defined_later",
+               "first_row_repeated", "priority_and_arrival_on_later")
 
 
 def run_corrupt(scn):
@@ -484,8 +504,15 @@ def run_corrupt(scn):
         rows[mine[scn.get("row", 0) % len(mine)]][6] = scn.get("junk", "cubic")
     elif kind == "undefined_parent":
         rows[mine[scn.get("row", 0) % len(mine)]][4] = "op99"
+    elif kind == "first_row_repeated":
+        # the pipeline's first line once more among its rows: a later row that carries priority and arrival
+        at = first + 1 if scn.get("row", 0) % 2 == 0 else mine[-1] + 1
+        rows.insert(at, list(rows[first]))
     elif later is None:
         ok = False
+    elif kind == "priority_and_arrival_on_later":
+        rows[later][2] = pipes[j]["prio"]
+        rows[later][1] = rows[first][1]
     elif kind == "priority_on_later":
         rows[later][2] = pipes[j]["prio"]
     elif kind == "arrival_on_later":
